@@ -90,7 +90,8 @@ class PrivateKey(object):
         decoded = decode_base58_checksum(s=wif_str)
         if wif_str[0] in ("K", "L", "c"):
             # compressed key --> so remove last byte that has to be 01
-            assert decoded[-1] == 1
+            if decoded[-1] != 1:
+                raise ValueError("invalid compression flag in WIF")
             decoded = decoded[:-1]
         return cls(sec_exp=decoded[1:])
 
